@@ -89,6 +89,8 @@ pub struct Families {
     pub tiny: bool,
     /// pinned: every corpus file rewritten with CRLF and with mixed line endings
     pub crlf_corpus: bool,
+    /// seeded: programs of the Luau type-language generator (gen_luau.rs)
+    pub luau_rich: bool,
 }
 
 impl Work {
@@ -145,6 +147,9 @@ impl Work {
             n += seeded;
         }
         if fam.mutants {
+            n += seeded / 2;
+        }
+        if fam.luau_rich {
             n += seeded / 2;
         }
         n
@@ -487,6 +492,58 @@ impl Work {
                         presig: None,
                     },
                 );
+                return;
+            }
+            i -= seeded / 2;
+        }
+        if fam.luau_rich && i < seeded / 2 {
+            let mut rng = Rng::derive(ctx.seed, 0x17ae, i as u64);
+            let prog = crate::gen_luau::program(&mut rng, fam.tame);
+            let mut base = Cfg::random(&mut rng, "Luau", fam.seeded_min_width);
+            if fam.no_collapse {
+                base.collapse_simple_statement = "Never";
+            }
+            if !fmt::parses(&prog, &base) {
+                ctx.count("luau_rich.rejected_by_parser");
+                return;
+            }
+            ctx.count("luau_rich.accepted");
+            f(
+                ctx,
+                &Eval {
+                    id: format!("lrich:{}:{}", ctx.seed, i),
+                    src: prog.clone(),
+                    cfg: base.clone(),
+                    range: None,
+                    pinned: false,
+                    presig: None,
+                },
+            );
+            // the same program at one critical width of its infinite-width output
+            if fam.seeded_critical {
+                let mut wide = base.clone();
+                wide.column_width = usize::MAX;
+                if let Ok(text) = fmt::run(&prog, &wide, None, false, false).result {
+                    let ws: Vec<usize> = critical_widths(&text, base.indent_width, 6)
+                        .into_iter()
+                        .filter(|w| *w >= fam.seeded_min_width)
+                        .collect();
+                    if !ws.is_empty() {
+                        let mut c = base.clone();
+                        c.column_width = *rng.pick(&ws);
+                        f(
+                            ctx,
+                            &Eval {
+                                id: format!("lrich:{}:{}:w{}", ctx.seed, i, c.column_width),
+                                src: prog,
+                                cfg: c,
+                                range: None,
+                                pinned: false,
+                                presig: None,
+                            },
+                        );
+                    }
+                }
             }
         }
     }
@@ -606,7 +663,7 @@ impl Work {
 impl Work {
     /// Degenerate inputs: the shapes ordinary corpora do not contain.
     fn tiny_item(&self, ctx: &mut Ctx, f: &mut dyn FnMut(&mut Ctx, &Eval)) {
-        let progs: [&str; 26] = [
+        let progs: [&str; 31] = [
             "",
             "\n",
             "\n\n\n",
@@ -633,6 +690,11 @@ impl Work {
             "do end",
             "-- a\n\n-- b\n\n\n-- c",
             "\r\n\r\n-- c\r\n\r\n",
+            "type A<T... = (string)> = () -> T...",
+            "type B<U = (string), T... = (string, number)> = nil",
+            "type D<T... = ()> = nil",
+            "type E<T... = ...number> = nil",
+            "type F<T...> = (T...) -> ...any",
         ];
         for (k, p) in progs.iter().enumerate() {
             for syntax in ["Lua51", "Luau", "All"] {
